@@ -219,6 +219,13 @@ func c17Cases(tier string) []c17Case {
 			}
 		}
 	}
+	// every value written through a pipeline of the cluster client as well (Put and GetPut), queued
+	// between other value-carrying commands: what is stored must be the value that was queued
+	for vi := range vals {
+		for _, p := range []string{"PL", "PLG"} {
+			cs = append(cs, c17Case{Kind: "value", VI: vi, KI: 0, Path: p, Stage: "direct"})
+		}
+	}
 	for _, kl := range []int{0, 1, 254, 255, 256, 257, 300} {
 		for _, p := range paths {
 			for _, st := range []string{"direct", "failover"} {
@@ -333,7 +340,41 @@ func c17Run(cs c17Case) []c17Fail {
 		_ = dm.Put(ctx, junk, "to-be-deleted")
 		_, _ = dm.Delete(ctx, junk)
 	}
-	putErr := dm.Put(ctx, key, val.Put)
+	var putErr error
+	if path == "PL" || path == "PLG" {
+		putErr = func() error {
+			pl, err := dm.Pipeline()
+			if err != nil {
+				return err
+			}
+			defer pl.Close()
+			pl.Put(ctx, "pl~decoy-a", []byte("decoy-before-0123456789"))
+			pl.GetPut(ctx, "pl~decoy-b", "decoy-before-getput")
+			var result func() error
+			if path == "PL" {
+				f, err := pl.Put(ctx, key, val.Put)
+				if err != nil {
+					return err
+				}
+				result = f.Result
+			} else {
+				f, err := pl.GetPut(ctx, key, val.Put)
+				if err != nil {
+					return err
+				}
+				result = func() error { _, err := f.Result(); return err }
+			}
+			pl.GetPut(ctx, "pl~decoy-b", []byte("DECOY-AFTER"))
+			pl.Put(ctx, "pl~decoy-a", "DECOY-AFTER-PUT-WITH-ANOTHER-LENGTH")
+			pl.Put(ctx, "pl~decoy-c", int64(-1))
+			if err := pl.Exec(ctx); err != nil {
+				return err
+			}
+			return result()
+		}()
+	} else {
+		putErr = dm.Put(ctx, key, val.Put)
+	}
 	sig := fmt.Sprintf("kind=%s/path=%s/stage=%s", cs.Kind, cs.Path, cs.Stage)
 	wantReject := ""
 	if cs.Kind == "key" && cs.KLen >= 256 {
